@@ -37,6 +37,9 @@ def run(tier, seed, replay=None):
             p = g.inherent()
         elif c < 0.5:
             p = g.lifetime_keys_plan()
+        elif c < 0.62:
+            # `?Sized` relaxations, inline or in the where-clause: the placement variants move them too (seeded change C06f)
+            p = g.unsized_plan(d7=False)
         else:
             p = g.basic(nfam=rng.choice([1, 1, 2]))
             if rng.random() < 0.5:
